@@ -40,6 +40,10 @@ func (w *World) Regimes() map[string][]string {
 	out["canceled"] = append(append([]string{}, late...), fmt.Sprintf("cancel:%d", reps[0]), "empty", "empty", "empty")
 	out["v2"] = append(append([]string{}, late...), "stake:0", "upv2:0", "upv2:1", "upv2:2", "v2vote:0>0", "v2vote:0>1", "v2vote:0>2", "empty", "empty")
 	out["v2active"] = append(append([]string{}, out["v2"]...), "empty", "empty", "empty", "empty")
+	// late + voter 0 staked and the two representative producers upgraded to v1+v2 but without
+	// any v2 vote: the free blocks lift them to just below / exactly at / above
+	// DPoSV2EffectiveVotes (membership of DposV2EffectedProducers)
+	out["v2ready"] = append(append([]string{}, late...), "stake:0", fmt.Sprintf("upv2:%d", reps[0]), fmt.Sprintf("upv2:%d", reps[1]))
 	// late + the chain reverted to PoW (16), RevertToDPOS accepted at 18 (work height W = 28) and
 	// PoW blocks up to W: the next block, W+1, restarts DPOSStartHeight AND performs the regular
 	// irreversibility advance (two changes of the same field at one height)
@@ -52,7 +56,7 @@ func (w *World) Regimes() map[string][]string {
 }
 
 // RegimeNames lists the regimes in exploration order.
-var RegimeNames = []string{"early", "late", "inactive", "canceled", "v2", "v2active", "returned"}
+var RegimeNames = []string{"early", "late", "inactive", "canceled", "v2", "v2active", "returned", "v2ready"}
 
 // StateCanonOpts are the canonicalisation options under which two DPoS states are compared.
 var StateCanonOpts = &CanonOpts{
